@@ -10,6 +10,7 @@ import gc
 import os
 import shutil
 import sys
+import socket
 import tempfile
 import time
 
@@ -422,7 +423,7 @@ def gen_ops(rng, tier, cli_budget):
                 i = rng.choice(b.open_clients(("raw", "cli", "mute")))
                 add(["leave", i, how_to_leave(rng, b.clients[i]["kind"])])
             elif r < 0.93:
-                add(["stop"])
+                add(["stop", rng.randint(0, 5)] if rng.random() < 0.4 else ["stop"])
             elif b.stopped:
                 add(["probe"])
 
@@ -455,7 +456,7 @@ def gen_ops(rng, tier, cli_budget):
         need_closer = "gather-and-close" not in [b.clients[i]["hanging"] for i in b.hangers()]
         add(["release", rng.choice(raws) if (need_closer and raws and rng.random() < 0.8) else None])
     if not b.stopped and rng.random() < 0.5:
-        add(["stop"])
+        add(["stop", rng.randint(0, 5)] if rng.random() < 0.4 else ["stop"])
     rest = b.open_clients(("raw", "cli", "mute"))
     rng.shuffle(rest)
     ghost_last = rng.random() < 0.25
@@ -719,7 +720,26 @@ class NetRun:
                                 break
                     elif op[0] == "stop":
                         if not (case.get("early_stop") and step == 0):      # (that one was issued right after the start)
+                            racer = None
+                            if len(op) > 1 and not self.task.done():
+                                # a client that connects on the kernel level `op[1]` loop iterations before the stop: the
+                                # server may or may not have accepted it, may or may not have started its session - whatever
+                                # the outcome, once it is gone again the stopped server has to wind up (the model knows
+                                # nothing of this client: it never says a word and leaves at once)
+                                racer = socket.socket(socket.AF_INET if addr[0] == "tcp" else socket.AF_UNIX, socket.SOCK_STREAM)
+                                racer.settimeout(1.0)
+                                try:
+                                    racer.connect(("127.0.0.1", addr[1]) if addr[0] == "tcp" else addr[1])
+                                    self.stats["racing_clients"] += 1
+                                except OSError:
+                                    racer.close()
+                                    racer = None
+                                for _ in range(int(op[1])):
+                                    await asyncio.sleep(0)
                             self.task.cancel()
+                            if racer is not None:
+                                await W.spin(3)
+                                racer.close()
                     elif op[0] == "restart":
                         try:
                             self.task = await asyncio.wait_for(self.srv.serve_forever(), STEP_WAIT)
